@@ -210,7 +210,7 @@ class Generic:
         # Merge all fragments
         for content in contents:
             raw_kern += separator + content
-            document, _ = create(raw_kern)
+            document, _ = cls.create(raw_kern)  # not the deprecated module-level wrapper: it warns on every fragment
             high_index = len(document.measure_start_tree_stages)  # 0 while no measure has started yet
             indexes.append((low_index, high_index))
 
